@@ -41,7 +41,7 @@ static int prev_state = -1;
 static int count_ledger_size(size_t sz);
 static void note_state(void) {
   int slots = 0;
-  if (Lb->mmc_cache) for (int i = 0; i < 16; i++) if (Lb->mmc_cache[i].size) slots++;
+  if (Lb->mmc_cache) for (int i = 0; i < Lb->mmc_nblocks; i++) if (Lb->mmc_cache[i].size) slots++;
   int hb = Lb->mzdcache ? count_ledger_size(sizeof(mzd_t) * 64 + 64) - base4160 : 0;
   if (hb > 16) hb = 16;
   if (hb < 0) hb = 0;
@@ -299,11 +299,11 @@ static void child_run(void *ud) {
       int owner_big = !objs[x[0]].is_window && objs[x[0]].r && objs[x[0]].c;
       size_t bytes = owner_big ? owner_words(&objs[x[0]]) * 8 : 0;
       int slots = 0;
-      if (Lb->mmc_cache) for (int i = 0; i < 16; i++) if (Lb->mmc_cache[i].size) slots++;
+      if (Lb->mmc_cache) for (int i = 0; i < Lb->mmc_nblocks; i++) if (Lb->mmc_cache[i].size) slots++;
       do_free((int)x[0], step);
       if (Lb->mmc && owner_big) {
         if (bytes >= (size_t)m4sim_l3 && heap_live_count() < live0) cov->probes[P_BYPASS_BIG]++;
-        if (bytes < (size_t)m4sim_l3 && slots == 16) cov->probes[P_EVICT_17TH]++;
+        if (bytes < (size_t)m4sim_l3 && Lb->mmc_nblocks && slots == Lb->mmc_nblocks) cov->probes[P_EVICT_17TH]++;
       }
     } else if (!strcmp(w0, "fill")) {
       if (sscanf(line, "fill %ld %llu", &x[0], &s) != 2 || x[0] < 0 || x[0] >= MAXOBJ || !objs[x[0]].used) { sim_shared->aux[1] = 1; snprintf(sim_shared->note, sizeof sim_shared->note, "invalid line at step %d: %.100s", step, line); return; }
